@@ -13,10 +13,17 @@ CLAIM = {
             "overlap, octets of the input; chunk_stream outputs every accepted octet exactly once but for a tail shorter than the "
             "alignment, every unit is a multiple of the alignment, <= MTU, full-size except the last, never empty, and the unit sequence "
             "is the same for both cuttings (cut independence); aggregate outputs every accepted octet once, units <= MTU; flush and "
-            "release terminate (unwinding assertions on their loops, native replay under a 10 s alarm).",
+            "release terminate (unwinding assertions on their loops, native replay under a 10 s alarm). TS SYNCHRONISATION (the real "
+            "upipe_ts_sync.c, packet size configured to 2-3 octets, sync count 2-3, streams of 10-11 octets): for every listed PATTERN of "
+            "sync words and two cuttings, the units are exactly those of a reference synchroniser (whole packets starting with the sync "
+            "byte where the configured number of sync words stand one packet apart, plus the synchronised tail at release), carry the "
+            "input octets, and are the same for both cuttings. This part is a CONCRETE bounded enumeration executed by CBMC (memory "
+            "safety + oracle): no symbolic data, see the note.",
     "note": "Trusted: as C04. Bounds: 5-6 octets, <= 4 buffers per cutting, the listed MTU/alignment pairs (the sizes decide the heap "
-            "shape, so they are enumerated; octets are symbolic). Not covered: ts_sync / ts_check / ts_align (lib/upipe-ts needs the "
-            "absent bitstream headers; see C15/C16 not_applicable), longer streams. Cut entries >= 100 are two-segment buffers.",
+            "shape, so they are enumerated; octets are symbolic). ts_sync compiles against shim/include/bitstream/mpeg/ts.h (it needs only TS_SIZE) and its packet "
+            "size is set to 2-3 octets through the pipe's own set_output_size; its streams are concrete (sync-word pattern enumerated, other "
+            "octets position-coded) because symbolic octets make the scan position symbolic (no verdict in 600 s). Not covered: ts_check / "
+            "ts_align, real 188-octet packets, longer streams. Cut entries >= 100 are two-segment buffers.",
     "technique": "CBMC bounded model checking of real C pipes: two instances under two cuttings of one symbolic stream, conservation / "
                  "cut-independence oracles, unwinding assertions for termination",
 }
@@ -52,9 +59,33 @@ def build(tier):
                             shims=ps.SHIMS, unwind=10, unwindset=UW, fp_restrict=True, timeout=280, leak=True, witness=(mtu >= max(x if x < 100 else x // 100 + x % 100 for x in c) and max(c) > 0),
                             replay_witness=False,
                             sample={"pipe": "aggregate", "mtu": mtu, "cutting": c, "stream": "6 symbolic octets"} if i == 0 else None))
+    # TS synchronisation (harness/C14_tssync.c): the real upipe_ts_sync.c with the packet size configured to 2-3 octets and the
+    # sync count to 2-3; the stream is a PATTERN of sync words (discrete selector) with position-coded other octets -- no symbolic
+    # data here: symbolic octets make the scan position symbolic (no verdict in 600 s, also with octets masked away from 0x47)
+    TS_UW = [u for u in UW if not u.startswith(("probe_check", "env_count"))] + ["ubuf_block_common_clean.0:8", "ubuf_block_common_dup.0:8", "memchr.0:20"]
+    TSCUTS = {10: [[3, 4, 3], [5, 5], [1, 9], [2, 2, 2, 2, 2], [4, 203, 1], [7, 3]], 11: [[4, 7], [3, 3, 5], [6, 104], [1, 1, 9], [11]]}
+    tsplan = []
+    for (nb, size, nsync, step) in ((10, 2, 3, 13 if quick else 1), (11, 3, 2, 61 if quick else 3), (10, 2, 2, 97 if quick else 5)):
+        for pat in range(1, 1 << nb, step):
+            bits = [(pat >> i) & 1 for i in range(nb)]
+            if sum(bits) < 2:
+                continue
+            tsplan.append((bits, size, nsync, TSCUTS[nb][pat % len(TSCUTS[nb])]))
+    # streams with two partial sync runs in front of a full one
+    for bits in ([1, 0, 1, 0, 0, 1, 0, 1, 0, 1], [1, 0, 1, 1, 0, 1, 0, 1, 0, 0], [0, 1, 0, 1, 0, 0, 1, 0, 1, 0], [1, 0, 1, 0, 0, 1, 0, 1, 0, 0]):
+        tsplan.append((bits, 2, 3, [10]))
+        tsplan.append((bits, 2, 3, [3, 4, 3]))
+    for i, (bits, size, nsync, cb) in enumerate(tsplan):
+        nb = len(bits)
+        qs.append(Query(name="tssync_p%s_s%d_n%d_cut%s" % ("".join(map(str, bits)), size, nsync, "-".join(map(str, cb))), harness="C14_tssync.c",
+                        defines=["PATTERN=" + ",".join(map(str, bits)), "SIZE=%d" % size, "NSYNC=%d" % nsync, "CUT_A=%d" % nb if cb != [nb] else "CUT_A=1,%d" % (nb - 1),
+                                 "CUT_B=" + ",".join(map(str, cb)), "WITNESS_UNITS=0", "VERIF_POOL_NO_MGR_REF", "ENV_MAXIN=8"],
+                        shims=ps.SHIMS, unwind=16, unwindset=TS_UW, fp_restrict=True, timeout=280 if quick else 900, leak=True, replay_witness=(i % 40 == 0),
+                        sample={"pipe": "ts_sync", "packet size": size, "sync count": nsync, "sync words at": [k for k, b in enumerate(bits) if b],
+                                "stream octets": nb, "cutting_B": cb, "symbolic": "nothing (concrete enumeration run by CBMC)"} if i % 80 == 0 else None))
     meta = {"bounds": {"stream_octets": [5, 6], "configs_mtu_align": cfgs, "cuttings": CUTS6 + CUTS5, "buffers_per_cutting": "<= 4"},
             "exhaustive": False,
             "rule": "one query per (pipe, configuration, stream length, cutting); sizes are enumerated (they decide the heap shape), octets symbolic",
             "assumptions": ps.COMMON_ASSUME[1:] + ["aggregate drops empty and oversized input units (documented by its warning); they are not 'accepted' octets"],
-            "outside": ["ts_sync / ts_check / ts_align", "streams longer than 6 octets", "mid-stream reconfiguration"]}
+            "outside": ["ts_check / ts_align", "188-octet packets (ts_sync is run with 2-3 octet packets)", "streams longer than 6 octets", "mid-stream reconfiguration"]}
     return qs, meta
